@@ -221,6 +221,13 @@ func strategyEval(uri string) (class, string, string) {
 		return clAccept, "", resolved
 	}
 	v := n[len(pre)+1]
+	if v.Typ == enc.TypeVersionNameComponent && len(v.Val) > 1 && len(n) == len(pre)+2 {
+		if x, _, err := enc.ParseNat(v.Val); err == nil && uint64(x) == 1 {
+			// version 1 written with leading zero bytes: refuse it, or take it as version 1 (the
+			// strategy then in force must be the one the forwarder knows under its canonical name)
+			return clMay, "", resolved
+		}
+	}
 	if v.Typ != enc.TypeVersionNameComponent || len(v.Val) != 1 || v.Val[0] != 1 {
 		return clReject, "unknown strategy version", ""
 	}
